@@ -54,7 +54,7 @@ type caseMon struct {
 	scSeen    map[string]bool  // sf- keys ever seen live
 
 	// released at least once: records that left the map wait for their release
-	cleanups int             // cleanup cycles seen so far (single-threaded phase)
+	cleanups int // cleanup cycles seen so far (single-threaded phase)
 	live     map[uintptr]bool
 	vanished map[uintptr]int // record -> cleanups at the time it was seen to have left the map
 	putCount map[uintptr]int // record -> pool puts since it was last seen live
@@ -209,7 +209,7 @@ func (m *caseMon) remember(recs []isaacstates.VerifRecord) {
 		m.putCount[rec.Ptr] = 0
 	}
 	for ptr := range m.live {
-		if !now[ptr] {
+		if !now[ptr] && m.putCount[ptr] == 0 { // left the map and not released yet
 			if _, ok := m.vanished[ptr]; !ok {
 				m.vanished[ptr] = m.cleanups
 			}
